@@ -1204,6 +1204,59 @@ def oracle_c16(case, ir):
                                     f"{[x['id'] for x in case['contests']]}), but {alone[0][cid]} when estimated alone"}
             con = contests[cid]
             if con.audit_type == "ONEAUDIT" and mvr is None:
+                # ONEAudit before any audit data: the documented population of an assertion is the error-free
+                # values of the CVRs against themselves, with a one-vote overstatement at every floor(1/rate_1)-th
+                # position and a two-vote overstatement at every floor(1/rate_2)-th (the two-vote one where both fall)
+                r1, r2 = audit.error_rate_1, audit.error_rate_2
+                if not (0 <= r1 <= 1 and 0 <= r2 <= 1) or rate_fragile(case["audit"]["rate_1"]) \
+                        or rate_fragile(case["audit"]["rate_2"]) or case["cvrs"] is None:
+                    continue
+                each, docs, ok = [], [], True
+                # the populations that reached NonnegMean.sample_size, in call order: one per unconfirmed assertion, contests
+                # in dict order (only when every call was made)
+                slot, k = {}, 0
+                for c2 in case["contests"]:
+                    for nm2, a2 in contests[c2["id"]].assertions.items():
+                        if not a2.proved:
+                            slot[(c2["id"], nm2)] = k
+                            k += 1
+                pops = ir.get("pops") or []
+                for aname, a in con.assertions.items():
+                    if a.proved:
+                        continue
+                    def one1(a=a):
+                        cv = build_cards(case["cvrs"])
+                        doc = np.array(a.mvrs_to_data(cv, cv, use_all=True)[0], dtype=float)
+                        ub, m = a.assorter.upper_bound, a.margin
+                        if r1:
+                            doc[::math.floor(1 / r1)] = (1 - 0.5 / ub) / (2 - m / ub)
+                        if r2:
+                            doc[::math.floor(1 / r2)] = (1 - 1 / ub) / (2 - m / ub)
+                        return a.find_sample_size(data=doc, rate_1=r1, rate_2=r2, reps=audit.reps,
+                                                  quantile=audit.quantile, seed=audit.sim_seed), [float(v) for v in doc]
+                    r = impl_call(one1)
+                    if isinstance(r, dict):
+                        ok = False
+                        break
+                    each.append(int(r[0]))
+                    docs.append(r[1])
+                    if len(pops) == k:
+                        pop = pops[slot[(cid, aname)]]
+                        bad = [i for i, (x, y) in enumerate(zip(pop, r[1])) if abs(x - y) > 1e-9]
+                        if len(pop) != len(r[1]) or bad:
+                            return {"what": f"ONEAudit contest {cid} assertion {aname} (no audit data yet, error_rate_1={r1}, "
+                                            f"error_rate_2={r2}): the population handed to the test is {pop[:12]}.., the documented "
+                                            f"one (CVR values, one-vote overstatement every {math.floor(1 / r1) if r1 else '-'} cards, "
+                                            f"two-vote overstatement every {math.floor(1 / r2) if r2 else '-'} cards, the two-vote one "
+                                            f"where both fall) is {r[1][:12]}..; they differ at positions {bad[:8]}"}
+                if ok:
+                    want = max(each) if each else 0
+                    if got != want:
+                        return {"what": f"ONEAudit contest {cid} (no audit data yet, error_rate_1={r1}, error_rate_2={r2}): "
+                                        f"sample_size {got}, but the estimates of its unconfirmed assertions on the documented "
+                                        f"populations (CVR values with a one-vote overstatement every {math.floor(1 / r1) if r1 else '-'} "
+                                        f"cards and a two-vote overstatement every {math.floor(1 / r2) if r2 else '-'} cards) are "
+                                        f"{each}, largest {want}; first documented population: {docs[0][:12] if docs else []}"}
                 continue
             each = []
             ok = True
